@@ -55,6 +55,8 @@ def gen_cases(tier, seed):
             calls.append({'op': 'make', 'fn': 'make', 'content': parts, 'kw': {}})
             # the parts on their own, so that a cache keyed by a part would be shared with the list call
             calls.append({'op': 'make', 'fn': 'make', 'content': parts[0], 'kw': {}})
+        elif r < 0.74:
+            calls.append(rnd_helper_call(rng))
         elif r < 0.8:
             calls.append({'op': 'make', 'fn': 'make_sequence', 'content': gen.content_for_bits(rng.choice(['numeric', 'alphanumeric', 'byte']), rng.randint(10, 80)),
                           'kw': {'symbol_count': rng.randint(1, 4)} if rng.random() < 0.5 else {'version': rng.randint(1, 4)}})
@@ -83,6 +85,35 @@ def gen_cases(tier, seed):
             k += 1
     rng.shuffle(calls)
     return calls
+
+
+def rnd_helper_call(rng):
+    """The factories of segno.helpers return symbols too: same arguments, same symbol, in whichever thread."""
+    fn = rng.choice(['make_epc_qr', 'make_epc_qr', 'make_wifi', 'make_mecard', 'make_vcard', 'make_geo', 'make_email'])
+    if fn == 'make_epc_qr':
+        # amounts incl. ties beyond the second decimal (their rendering must not depend on who asks)
+        kw = {'name': rng.choice(['Wikimedia', 'Émile Zola', 'A B']), 'iban': 'DE33100205000001194700',
+              'amount': rng.choice([12.125, 0.375, '2.675', 1, '100.005', 12.3, '0.015', 999999999.99, 20.5, '7.125'])}
+        if rng.random() < 0.5:
+            kw['text'] = rng.choice(['Spende', 'Grüße', 'x'])
+        if rng.random() < 0.3:
+            kw['encoding'] = rng.choice([1, 2, 'utf-8', 'iso-8859-1'])
+    elif fn == 'make_wifi':
+        kw = {'ssid': rng.choice(['net', 'my;net', 'Käse']), 'password': rng.choice([None, 'secret', 'p:w;d']),
+              'security': rng.choice([None, 'WPA', 'wep'])}
+        if rng.random() < 0.3:
+            kw['hidden'] = True
+    elif fn == 'make_mecard':
+        kw = {'name': rng.choice(['Doe,John', 'Müller;X']), 'email': rng.choice([None, 'a@example.org', ('a@example.org', 'b@example.org')]),
+              'phone': rng.choice([None, '+1 555 123'])}
+    elif fn == 'make_vcard':
+        kw = {'name': rng.choice(['Doe;John', 'Mustermann;Erika']), 'displayname': rng.choice(['John Doe', 'Erika M.']),
+              'email': rng.choice([None, 'a@example.org']), 'birthday': rng.choice([None, '1980-05-17'])}
+    elif fn == 'make_geo':
+        kw = {'lat': rng.choice([38.8976763, -0.5, 0, 90]), 'lng': rng.choice([-77.0365297, 12.25, 180])}
+    else:
+        kw = {'to': rng.choice(['me@example.org', ('a@example.org', 'b@example.org')]), 'subject': rng.choice([None, 'Hi there', 'a&b=c'])}
+    return {'op': 'helper', 'fn': fn, 'kw': kw}
 
 
 def interaction_groups():
@@ -123,6 +154,8 @@ def interaction_groups():
                               {'eci': True, 'encoding': 'gb2312'}, {'eci': True})])
     groups.append([{'op': 'save', 'content': 'INTERACTION', 'make_kw': {'error': 'Q'}, 'kind': kind, 'kw': dict(skw)}
                    for kind in ('pdf', 'eps', 'txt', 'xpm', 'pam') for skw in ({}, {'scale': 2}, {'border': 1})])
+    groups.append([{'op': 'helper', 'fn': 'make_epc_qr', 'kw': {'name': 'N', 'iban': 'DE33100205000001194700', 'amount': a}}
+                   for a in (12.125, '12.125', 0.375, '2.675', 12.13, 12.12, '100.005', 0.01)])
     k = 900000
     for g in groups:
         for c in g:
@@ -147,6 +180,12 @@ def execute(call):
                 h.update(b'|'.join(bytes(r) for r in q.matrix))
                 h.update(repr((q.version, q.error, q.mask, q.mode, q.designator, q.is_micro)).encode())
             return 'ok:' + h.hexdigest()[:24], syms
+        if call['op'] == 'helper':
+            from segno import helpers
+            q = getattr(helpers, call['fn'])(**call['kw'])
+            h = hashlib.sha256(b'|'.join(bytes(r) for r in q.matrix))
+            h.update(repr((q.version, q.error, q.mask, q.mode, q.designator, q.is_micro)).encode())
+            return 'ok:' + h.hexdigest()[:24], [q]
         q = segno.make(call['content'], **call['make_kw'])
         before = [bytes(r) for r in q.matrix]
         out = io.StringIO() if call['kind'] in ('eps', 'xpm', 'xbm', 'txt', 'tex', 'ans') else io.BytesIO()
